@@ -1,0 +1,7 @@
+//go:build !verif
+
+package rpc
+
+import "net/http"
+
+func verifCaptureHandler(*JSONRPCServer, http.Handler) {}
